@@ -30,12 +30,22 @@ pub fn ty_gal(t: &Type) -> String {
     }
 }
 
+thread_local! {
+    /// print hash sets / asset maps in iteration order (the order serialization follows) instead of sorted
+    pub static ITER_ORDER: std::cell::Cell<bool> = std::cell::Cell::new(false);
+}
+
 pub fn utxo_x_gal(u: &Utxo) -> String {
+    let ents = if ITER_ORDER.with(|f| f.get()) {
+        u.assets.iter().map(|(k, v)| (k.clone(), *v)).collect::<Vec<_>>()
+    } else {
+        entries(&u.assets)
+    };
     format!(
         "({}, {}, {}, {}, {})",
         ref_gal(&u.r#ref),
         gal::bytes(&u.address),
-        entries_gal(&entries(&u.assets)),
+        entries_gal(&ents),
         gal::opt(u.datum.as_ref().map(expr_gal)),
         gal::opt(u.script.as_ref().map(expr_gal))
     )
@@ -48,6 +58,9 @@ pub fn sorted_utxos(s: &HashSet<Utxo>) -> Vec<&Utxo> {
 }
 
 pub fn utxo_set_gal(s: &HashSet<Utxo>) -> String {
+    if ITER_ORDER.with(|f| f.get()) {
+        return gal::list(&s.iter().map(utxo_x_gal).collect::<Vec<_>>());
+    }
     gal::list(&sorted_utxos(s).iter().map(|u| utxo_x_gal(u)).collect::<Vec<_>>())
 }
 
@@ -596,4 +609,109 @@ pub fn utxo_for(r: &mut Rng, i: u64, datum: bool) -> Utxo {
         },
         script: None,
     }
+}
+
+// ---------------------------------------------------------------- canonical form for comparisons
+
+fn const_key(e: &E) -> Option<Vec<u8>> {
+    match e {
+        E::None => Some(vec![0]),
+        E::Bytes(b) => Some([vec![1], b.clone()].concat()),
+        E::String(s) => Some([vec![2], s.as_bytes().to_vec()].concat()),
+        E::Number(n) => Some([vec![3], n.to_be_bytes().to_vec()].concat()),
+        _ => None,
+    }
+}
+
+/// sort every all-constant asset list (its order is hash-map iteration order whenever it is the
+/// result of arithmetic)
+pub fn canon_expr(e: &mut E) {
+    match e {
+        E::List(xs) => xs.iter_mut().for_each(canon_expr),
+        E::Map(kvs) => kvs.iter_mut().for_each(|(k, v)| {
+            canon_expr(k);
+            canon_expr(v)
+        }),
+        E::Tuple(t) => {
+            canon_expr(&mut t.0);
+            canon_expr(&mut t.1)
+        }
+        E::Struct(s) => s.fields.iter_mut().for_each(canon_expr),
+        E::Assets(xs) => {
+            for a in xs.iter_mut() {
+                canon_expr(&mut a.policy);
+                canon_expr(&mut a.asset_name);
+                canon_expr(&mut a.amount);
+            }
+            let keys: Option<Vec<_>> = xs.iter().map(|a| Some((const_key(&a.policy)?, const_key(&a.asset_name)?, const_key(&a.amount)?))).collect();
+            if let Some(keys) = keys {
+                let mut idx: Vec<usize> = (0..xs.len()).collect();
+                idx.sort_by(|i, j| keys[*i].cmp(&keys[*j]));
+                let sorted: Vec<_> = idx.into_iter().map(|i| xs[i].clone()).collect();
+                *xs = sorted;
+            }
+        }
+        E::EvalParam(p) => match p.as_mut() {
+            tir::Param::Set(x) => canon_expr(x),
+            tir::Param::ExpectInput(_, q) => {
+                canon_expr(&mut q.address);
+                canon_expr(&mut q.min_amount);
+                canon_expr(&mut q.r#ref)
+            }
+            _ => {}
+        },
+        E::EvalBuiltIn(op) => match op.as_mut() {
+            tir::BuiltInOp::NoOp(a) | tir::BuiltInOp::Negate(a) => canon_expr(a),
+            tir::BuiltInOp::Add(a, b) | tir::BuiltInOp::Sub(a, b) | tir::BuiltInOp::Concat(a, b) | tir::BuiltInOp::Property(a, b) => {
+                canon_expr(a);
+                canon_expr(b)
+            }
+        },
+        E::EvalCompiler(op) => match op.as_mut() {
+            tir::CompilerOp::BuildScriptAddress(a) | tir::CompilerOp::ComputeMinUtxo(a) | tir::CompilerOp::ComputeSlotToTime(a) | tir::CompilerOp::ComputeTimeToSlot(a) => canon_expr(a),
+            _ => {}
+        },
+        E::EvalCoerce(c) => match c.as_mut() {
+            tir::Coerce::NoOp(a) | tir::Coerce::IntoAssets(a) | tir::Coerce::IntoDatum(a) | tir::Coerce::IntoScript(a) => canon_expr(a),
+        },
+        E::AdHocDirective(d) => d.data.values_mut().for_each(canon_expr),
+        _ => {}
+    }
+}
+
+pub fn canon_tx_gal(tx: &tir::Tx) -> String {
+    let mut t = tx.clone();
+    canon_expr(&mut t.fees);
+    t.references.iter_mut().for_each(canon_expr);
+    for i in t.inputs.iter_mut() {
+        canon_expr(&mut i.utxos);
+        canon_expr(&mut i.redeemer);
+    }
+    for o in t.outputs.iter_mut() {
+        canon_expr(&mut o.address);
+        canon_expr(&mut o.datum);
+        canon_expr(&mut o.amount);
+    }
+    if let Some(v) = t.validity.as_mut() {
+        canon_expr(&mut v.since);
+        canon_expr(&mut v.until);
+    }
+    for m in t.mints.iter_mut().chain(t.burns.iter_mut()) {
+        canon_expr(&mut m.amount);
+        canon_expr(&mut m.redeemer);
+    }
+    for a in t.adhoc.iter_mut() {
+        a.data.values_mut().for_each(canon_expr);
+    }
+    for c in t.collateral.iter_mut() {
+        canon_expr(&mut c.utxos);
+    }
+    if let Some(s) = t.signers.as_mut() {
+        s.signers.iter_mut().for_each(canon_expr);
+    }
+    for m in t.metadata.iter_mut() {
+        canon_expr(&mut m.key);
+        canon_expr(&mut m.value);
+    }
+    tx_gal(&t)
 }
